@@ -7,6 +7,8 @@ What is proved here (all about PREIMAGES; `H` is an arbitrary digest function):
 
 * `trigger_attached_under_sync` — the regenerated `ledgerSetups` fact: the trigger
   runs `set_log_hash()` BEFORE INSERT, for each row of the ledger, under HASH_LOGS=SYNC;
+* `insert_takes_advisory_lock_under_sync` — regenerated fact: `InsertLog` takes the
+  transactional advisory lock first, under the same feature;
 * `chain_linear_sequential` — one-session-at-a-time inserts: ids are 1,2,3,…, each
   stored hash is `H` of the SQL preimage built over the STORED hash of the log with
   the previous id (so no two logs chain from the same predecessor);
@@ -31,6 +33,14 @@ theorem trigger_attached_under_sync :
     LogHash.trigger = { attached := true, timing := "before insert", table := "logs", forEachRow := true,
                         whenLedgerEqName := true, function := "set_log_hash",
                         featureName := "HASH_LOGS", featureValue := "SYNC" } := by
+  decide
+
+/-- `InsertLog` takes `pg_advisory_xact_lock(<ledger id>)` before the insert exactly under
+    HASH_LOGS=SYNC (regenerated fact read from storage/ledger/logs.go).  This is the
+    anchor of the any-schedule linearity argument (lock held until the end of the SQL
+    transaction ⇒ inserts of one ledger are serialised), which itself is NOT proved here. -/
+theorem insert_takes_advisory_lock_under_sync :
+    LogHash.insertLogAdvisoryXactLock = true ∧ LogHash.insertLogLockFeature = ("HASH_LOGS", "SYNC") := by
   decide
 
 /-- Sequential inserts build a linear chain: starting from an empty ledger, after
